@@ -287,7 +287,7 @@ def chunk(prop, seed, idx, n, stream_name, nchunks):
     streams, _kind = _REGISTRY[prop]
     stream = streams[stream_name]
     if stream.enum is not None:
-        descs = list(stream.enum(idx, nchunks, n))
+        descs = list(stream.enum(idx, nchunks, n, seed))
     else:
         rng = random.Random('%s/%s/%d/%d' % (prop, stream_name, seed, idx))
         kn = stream.knobs()
@@ -436,7 +436,7 @@ def enum_single(max_states, idx, nchunks, limit):
                                 yield build_enum_desc(shape, kinds, init, [(scope, src, dst)])
 
 
-def enum_pairs(max_states, idx, nchunks, limit, stride):
+def enum_pairs(max_states, idx, nchunks, limit, stride, offset=0):
     """trees with ≤ max_states states × compound kinds × TWO transitions of one event (global / local) × the four
     condition valuations × the root states as initial; every `stride`-th combination"""
     count = 0
@@ -482,7 +482,7 @@ def enum_pairs(max_states, idx, nchunks, limit, stride):
                         for val in ((), (0,), (1,), (0, 1)):
                             for init in roots:
                                 count += 1
-                                if count % stride != 0:
+                                if count % stride != offset:
                                     continue
                                 if (count // stride) % nchunks != idx:
                                     continue
@@ -626,11 +626,14 @@ class NestedCheck(runner.Check):
         for part in runner.parallel(chunk, payloads):
             ex.merge(part)
         done = set()
+        known = set(k.get('signature') for k in self.known())
         for f in ex.failures:
             key = (f.kind, f.what.split(':')[0] if f.kind != 'monitor' else f.what, f.signature)
             if key in done:
                 continue
             done.add(key)
+            if f.kind == 'monitor' and f.signature in known:
+                continue        # a listed finding: its minimal witness is in corpus/, nothing to shrink
             try:
                 f.case = runner.shrink(f.case, self.fails_like(f), shrink_steps, budget=12 if f.what.startswith('hang') else 250)
                 self.annotate(f)
